@@ -119,12 +119,16 @@ func (w *c13World) run() {
 	maintBias := tp.Intn(3)
 	abortW := 1 + tp.Intn(6)
 	personBias := tp.Intn(3)
+	retryBias := tp.Intn(3)
+	if noFaults {
+		retryBias = 0
+	}
 	if tp.Intn(4) == 0 {
 		// an outgoing hash-slot migration is configured: every command on that hash
 		// slot is also staged into the migration outbox
 		w.outgoing = map[uint16]multiraft.SlotID{w.owned[0]: 20}
 	}
-	r.Config = map[string]any{"outgoing": len(w.outgoing) > 0, "abort_w": abortW, "person_bias": personBias,"slot": w.slot, "legacy": w.legacy, "owned": fmt.Sprint(w.owned), "cmds": nCmds, "nofaults": noFaults, "max_batch": maxBatch,
+	r.Config = map[string]any{"outgoing": len(w.outgoing) > 0, "abort_w": abortW, "person_bias": personBias, "retry_bias": retryBias, "slot": w.slot, "legacy": w.legacy, "owned": fmt.Sprint(w.owned), "cmds": nCmds, "nofaults": noFaults, "max_batch": maxBatch,
 		"memtable": w.memTable, "malformed_bias": malformedBias, "unowned_bias": unownedBias, "mig_bias": migBias, "rt_bias": rtBias, "maint_bias": maintBias}
 
 	w.misc = &miscGen{tp: tp, slot: w.slot, owned: w.owned, foreign: w.foreign, personBias: personBias}
@@ -175,7 +179,7 @@ func (w *c13World) run() {
 		}
 		switch tp.Weighted([]int{wAppend, wDeliver, wFault}) {
 		case 0:
-			w.appendCommand(malformedBias, unownedBias, migBias, rtBias, maintBias)
+			w.appendCommand(malformedBias, unownedBias, migBias, rtBias, maintBias, retryBias)
 		case 1:
 			f := w.pickLagging()
 			size := 1 + tp.Intn(min(maxBatch, len(w.log)-f.pos))
@@ -271,40 +275,60 @@ func (w *c13World) refreshViews() {
 	}
 }
 
-func (w *c13World) appendCommand(malformedBias, unownedBias, migBias, rtBias, maintBias int) {
+func (w *c13World) appendCommand(malformedBias, unownedBias, migBias, rtBias, maintBias, retryBias int) {
 	tp, r := w.tp, w.r
 	w.refreshViews()
 	w.now += int64(100 * tp.Intn(12))
 	var e logEntry
 	ordinary := true
-	switch tp.Weighted([]int{10, migBias, rtBias, maintBias}) {
-	case 0:
-		c := w.misc.ordinary()
-		e = logEntry{hs: c.hs, data: c.data, desc: c.desc, mustRefuse: c.scopedForeign}
-	case 1:
-		ex := w.execs[tp.Intn(len(w.execs))]
-		ch := w.chans[tp.Intn(len(w.chans))]
-		c, ok := ex.act(tp, ch, w.now, w.gen)
-		if !ok {
-			c = ex.gcCmd(tp, ch, w.now)
+	retried := false
+	if retryBias > 0 && tp.Chance(retryBias, 10) {
+		// a proposer that got no answer proposes the same bytes again (value 0: it does not)
+		var cand []int
+		for i := len(w.log) - 1; i >= 0 && len(w.log)-i <= 4; i-- {
+			if w.log[i].plain {
+				cand = append(cand, i)
+			}
 		}
-		e = logEntry{hs: c.hs, data: c.data, desc: c.desc}
-	case 2:
-		c := w.prop.propose(tp, w.chans, true)
-		e = logEntry{hs: c.hs, data: c.data, desc: c.desc}
-	default:
-		c := w.misc.maintenanceCmd(uint64(len(w.log)))
-		e = logEntry{hs: c.hs, data: c.data, desc: c.desc, isDelta: c.isDelta, deltaHS: c.deltaHS}
-		ordinary = false
+		if len(cand) > 0 {
+			o := w.log[cand[tp.Intn(len(cand))]]
+			e = logEntry{hs: o.hs, data: o.data, desc: fmt.Sprintf("REPROPOSED-#%d %s", o.idx, o.desc), mustRefuse: o.mustRefuse}
+			retried = true
+			r.Fault("reproposed_command")
+		}
 	}
-	if ordinary && unownedBias > 0 && tp.Chance(unownedBias, 16) {
+	if !retried {
+		switch tp.Weighted([]int{10, migBias, rtBias, maintBias}) {
+		case 0:
+			c := w.misc.ordinary()
+			e = logEntry{hs: c.hs, data: c.data, desc: c.desc, mustRefuse: c.scopedForeign}
+		case 1:
+			ex := w.execs[tp.Intn(len(w.execs))]
+			ch := w.chans[tp.Intn(len(w.chans))]
+			c, ok := ex.act(tp, ch, w.now, w.gen)
+			if !ok {
+				c = ex.gcCmd(tp, ch, w.now)
+			}
+			e = logEntry{hs: c.hs, data: c.data, desc: c.desc}
+		case 2:
+			c := w.prop.propose(tp, w.chans, true)
+			e = logEntry{hs: c.hs, data: c.data, desc: c.desc}
+		default:
+			c := w.misc.maintenanceCmd(uint64(len(w.log)))
+			e = logEntry{hs: c.hs, data: c.data, desc: c.desc, isDelta: c.isDelta, deltaHS: c.deltaHS}
+			ordinary = false
+		}
+	}
+	if retried {
+		// proposed again exactly as it was
+	} else if ordinary && unownedBias > 0 && tp.Chance(unownedBias, 16) {
 		e.hs = w.foreign
 		e.mustRefuse = true
 		e.desc = "UNOWNED-HASH-SLOT " + e.desc
 	} else if ordinary && w.legacy && !e.mustRefuse && tp.Intn(3) == 0 {
 		e.hs = 0 // legacy default hash slot
 	}
-	if malformedBias > 0 && tp.Chance(malformedBias, 12) {
+	if !retried && malformedBias > 0 && tp.Chance(malformedBias, 12) {
 		var how string
 		e.data, how = mutateBytes(tp, e.data)
 		e.desc = "MALFORMED(" + how + ") " + e.desc
@@ -479,6 +503,10 @@ func (w *c13World) compareOne(f *replica, batch []logEntry, j int, res []byte, e
 	case err != nil && errClass(err) != e.errCls:
 		r.FailSig("outcome-divergence", "error-class", fmt.Sprintf("#%d %s: reference replica rejected with %s, replica %s (%s) with %s", e.idx, e.desc, e.errCls, f.n.name, how, errClass(err)), nil)
 	case err == nil && !bytes.Equal(res, e.res):
+		// Every recorded C13 finding stays terminal for its run, also the ones that look
+		// like a difference of the reported result only: with an outgoing hash-slot
+		// migration configured a command answered "ok" is also written to the migration
+		// outbox, so the replicas' stored bytes differ from there on.
 		r.FailSig("result-divergence", pick(resultKind(e.res)+"->"+resultKind(res)), fmt.Sprintf("#%d %s: reference replica (applied alone) returned %q, replica %s (%s) returned %q", e.idx, e.desc, e.res, f.n.name, how, res), nil)
 	default:
 		return true
